@@ -111,19 +111,20 @@ func (self *BinaryConv) doRecurse(ctx context.Context, s string, jp int, desc *t
 			return ret, writeNumber(p, desc.Type(), v)
 
 		case types.V_STRING:
-			var str string
-			if str, err = decodeString(s, v, ret); err != nil {
-				return
-			}
-
 			if desc.IsBinary() && !self.opts.NoBase64Binary {
-				bs, err := base64.StdEncoding.DecodeString(str)
+				// NOTICE: the native implementation decodes the string as it is spelled in the JSON text,
+				// thus JSON escapes aren't accepted here
+				bs, err := base64.StdEncoding.DecodeString(s[v.Iv : ret-1])
 				if err != nil {
-					return ret, err
+					return ret, newError(meta.ErrRead, "decode base64 error", err)
 				}
 				return ret, p.WriteBinary(bs)
 
 			} else if desc.Type() == thrift.STRING {
+				str, err := decodeString(s, v, ret)
+				if err != nil {
+					return ret, err
+				}
 				return ret, p.WriteString(str)
 
 			} else if t := desc.Type(); self.opts.String2Int64 && (t.IsInt() || t == thrift.DOUBLE) {
